@@ -15,10 +15,139 @@ ASSUME = ["hook: metrics_util::storage::reservoir::verif_set_rng replaces the th
           "pushes concurrent with a drain are outside this (sequential) part"]
 
 
+ASSUME_E3 = ["E3 (schedules): sequential consistency for atomics; Mutex::lock never fails (one consumer at a time per scenario); reservoir capacity 2; slot contents before the first cycle are distinct tags "
+             "(stand-ins for values of an earlier cycle); the PRNG draw is unconstrained in [0, upper)"]
+
+
+def schedule_scenario(e3, name, npush, known):
+    """push (x npush, each on its own thread) || consume, then two quiescent consumes (secondary half, primary half again)"""
+    import z3
+    import _e3
+    from mirsmt import sym, conc, models
+    from mirsmt.sym import Ptr, Agg, Enum, Native, Fork, UNIT, bv, Script, Opaque
+    CAP = 2
+    P = _e3.program(["metrics-util"])
+    push_b = P.find("AtomicSamplingReservoir", "push")
+    cons_b = P.find("AtomicSamplingReservoir", "consume")
+    next_b = [b for b in P.by_last["next"] if b.impl and b.impl[1] == "Drain"][0]
+    drop_b = [b for b in P.by_last["drop"] if b.impl and b.impl[1] == "Drain"][0]
+    draw = [0]
+
+    def m_fastrand(eng, ctx, f, path, args, dty):
+        draw[0] += 1
+        d = z3.BitVec(f"draw{draw[0]}", 64)
+        ctx.pc.append(z3.ULT(d, args[0]))
+        return d
+    m = {r"^fastrand$": m_fastrand, r"^std::sync::Mutex::lock$|^Mutex::lock$": lambda *a: Enum(0, {0: Agg({0: Opaque("guard")})}, "Result"),
+         r"f64::to_bits$|f64::from_bits$": models.m_identity}
+    m.update(models.BASE)
+    eng = sym.Engine(P, models=m, loop_bound=CAP + 2, max_paths=20000)
+    c0 = sym.Ctx(eng, 0)
+    eng.thread_names[0] = "setup"
+    inits = [z3.BitVec(f"stale{i}", 64) for i in range(2 * CAP)]
+    vals = [c0.alloc("ReservoirValues", {(("idx", i),): (64, inits[h * CAP + i]) for i in range(CAP)}) for h in range(2)]
+    res = c0.alloc("AtomicSamplingReservoir", {(0, 1): (64, bv(0)), (1, 1): (64, bv(0)), (2,): ("bool", z3.BoolVal(True))})
+    for h in range(2):
+        eng.immutable[(res, (h, 0))] = Ptr(("obj", vals[h]), (), bv(CAP))
+    eng.leaves[0] = [sym.Leaf(c0, "done")]
+    rp = Ptr(("obj", res))
+    tags = [bv(0x7000 + i) for i in range(npush)]
+
+    def make_cb(label):
+        def cb(eng_, ctx, f, args):
+            drain = args[0]
+
+            def script(c):
+                fr = c.frames[-1]
+                tmp = 830000 + len(c.frames)
+                if tmp not in fr.locals:
+                    fr.locals[tmp] = drain
+                dp = Ptr(("local", fr.fid, tmp))
+                yield ("observe", label + ":start", {"unsampled_len": drain.f[1], "len": drain.f[2]})
+                for _ in range(CAP + 1):
+                    r = yield ("callv", next_b, [dp])
+                    if isinstance(r, Enum) and isinstance(r.discr, int) and r.discr == 0:
+                        break
+                    if isinstance(r, Enum) and isinstance(r.discr, int):
+                        yield ("observe", label, {"value": r.v[1].f[0]})
+                    else:
+                        raise sym.Unsupported("Drain::next returned a merged Option")
+                yield ("callv", drop_b, [dp])
+                return UNIT
+            return Script(script)
+        return Native("callback", cb)
+    tids = []
+    for i, t in enumerate(tags, start=1):
+        eng.run_thread(i, f"t{i}:push", push_b, [rp, t])
+        tids.append(i)
+    ct = len(tags) + 1
+    eng.run_thread(ct, f"t{ct}:consume", cons_b, [rp, make_cb("drain1")])
+    tids.append(ct)
+    fin = ct + 1
+
+    def final():
+        yield ("call", cons_b, [rp, make_cb("drain2")])
+        yield ("call", cons_b, [rp, make_cb("drain3")])
+        return None
+    eng.run_script(fin, "final: consume; consume", final)
+    sc = conc.Scenario(eng, name)
+    for t in tids:
+        sc.thread_order(0, t)
+        sc.thread_order(t, fin)
+    sc.thread_order(0, fin)
+    sc.build()
+    import c05
+    ys = []
+    for lab in ("drain1", "drain2", "drain3"):
+        ys += [(lab, e, pay) for e, pay in c05.payloads(eng, lab)]
+    starts = [(lab, e, pay) for lab in ("drain1", "drain2", "drain3") for e, pay in c05.payloads(eng, lab + ":start")]
+    foreign = z3.Or(*[z3.And(e.guard, z3.Not(z3.Or(*[pay["value"] == t for t in tags]))) for lab, e, pay in ys] or [z3.BoolVal(False)])
+    twice = z3.Or(*[z3.Sum(*[z3.If(z3.And(e.guard, pay["value"] == t), 1, 0) for lab, e, pay in ys]) > 1 for t in tags]) if ys else z3.BoolVal(False)
+    too_many = z3.Or(*[z3.And(e.guard, z3.Or(z3.UGT(pay["len"], bv(CAP)), z3.UGT(pay["len"], pay["unsampled_len"]))) for lab, e, pay in starts] or [z3.BoolVal(False)])
+    # the known mechanism: a drain reads a slot whose pusher has claimed it (count already incremented) but not yet stored the value
+    k9 = []
+    for p in [t for t in tids if t != ct]:
+        claims = [e for e in eng.events if e.tid == p and e.label == "fetch_add"]
+        stores = [e for e in eng.events if e.tid == p and e.label == "store" and e.kind == "W"]
+        loads = [e for e in eng.events if e.tid in (ct, fin) and e.label == "load" and e.fn and e.fn.endswith("::next")]
+        for c_ in claims:
+            for s_ in stores:
+                for l_ in loads:
+                    k9.append(z3.And(c_.guard, s_.guard, l_.guard, sc.clock[c_.id] < sc.clock[l_.id], sc.clock[l_.id] < sc.clock[s_.id]))
+    k9c = z3.Or(*k9) if k9 else z3.BoolVal(False)
+    props = [("yields_only_values_of_this_cycle", "a drain yields a value that was not pushed since the previous drain (outside the known claimed-but-not-yet-written mechanism)", z3.And(foreign, z3.Not(k9c)), None),
+             ("no_value_yielded_twice", "a pushed value is yielded by two drains (or twice by one)", twice, None),
+             ("never_more_than_capacity_or_than_pushed", "a drain announces more values than the capacity or than were pushed", too_many, None),
+             ("no_panic", "push or consume can panic", sc.reach("panic"), None)]
+    kn = {}
+    if known:
+        props.append(("K9_drain_reads_claimed_but_unwritten_slot", "known finding K9: the drain reads a slot that a concurrent push has claimed (count incremented) but not yet written: a stale value of an earlier cycle is yielded",
+                      z3.And(foreign, k9c), None))
+        kn["K9_drain_reads_claimed_but_unwritten_slot"] = "C16:K9-drain-reads-claimed-unwritten-slot"
+    import _e3 as E
+    e3.standard(sc, eng, name, f"{npush} pusher thread(s) || consume, then two quiescent consumes; capacity {CAP}; all interleavings of atomic steps; {sc.stats}", props, timeout=300, known=kn,
+                replayer=E.native_replayer("C16", "c16", {**{t: "push" for t in tids if t != ct}, ct: "consume"}, {}))
+
+
 def run(tier, seed, t0):
-    _kprop.run_kani("C16", tier, seed, t0, [("util", HARNESSES, dict(hooks=True))], ASSUME, FUNCS,
-                    "Kani harnesses over AtomicSamplingReservoir with the PRNG draw as a solver unknown")
+    import _e3
+    from mirsmt import sym
+    e3 = _e3.E3("C16")
+    for nm, np_, known in [("c16_push_consume", 1, True)] + ([("c16_push2_consume", 2, True)] if tier == "thorough" else []):
+        try:
+            schedule_scenario(e3, nm, np_, known)
+        except sym.Unsupported as ex:
+            e3.error(nm, "MIR->SMT encoding of AtomicSamplingReservoir", ex)
+    obs = list(e3.res.obligations)
+    obs += kani.run_group("util", [h for h in HARNESSES], tier, hooks=True)
+    finish("C16", tier, seed, obs, t0, ASSUME + ASSUME_E3 + ["E3 callee models: " + ", ".join(sorted(e3.models))], FUNCS + sorted(e3.functions),
+           explanation="Kani harnesses over AtomicSamplingReservoir with the PRNG draw as a solver unknown + MIR->SMT partial-order encoding of push || consume")
 
 
 def replay(path):
-    return _kprop.replay(path)
+    if path.endswith(".vals"):
+        return _kprop.replay(path)
+    import replay_e3
+    status, out = replay_e3.run("c16", path)
+    print(status, out)
+    return 1 if status == "reproduced" else 0
